@@ -309,3 +309,35 @@ class FaultPlanBehaviour(RandomBehaviour):
             else:
                 rep.exc = RuntimeError(f"injected failure in {p.sid}.{p.kind}")
         return rep
+
+
+class RTBehaviour(RandomBehaviour):
+    """Behaviour for real-time runs (C17): every request has a (virtual) duration; simulators may
+    call set_event during their steps.  durations: list of multiples of K/2 (seconds) to draw from;
+    events = {sid: {"p": probability, "offsets": [...]}} -> set_event(time + offset)."""
+
+    def __init__(self, seed, K=1.0, durations=(0,), events=None, **kw):
+        super().__init__(seed, **kw)
+        self.K = K
+        self.durations = durations
+        self.events = events or {}
+
+    def duration(self, ctx, p):
+        r = self.rng(p.sid, "dur" + p.kind, p.k)
+        return r.choice(self.durations) * self.K / 2.0
+
+    def reply(self, ctx, p):
+        rep = super().reply(ctx, p)
+        ev = self.events.get(p.sid)
+        if p.kind == "step" and ev:
+            r = self.rng(p.sid, "ev", p.k)
+            if r.random() < ev.get("p", 0.5):
+                rep.calls.append(("set_event", p.args[0] + r.choice(ev.get("offsets", [1, 2]))))
+        return rep
+
+
+class TimerPolicy:
+    """Real-time runs: replies are delivered by virtual timers (step durations), never by the controller."""
+
+    def choose(self, ctx, quiescent):
+        return None
